@@ -95,7 +95,10 @@ def index(n):
             parts.append('' if (c['k'] == 'val' and c['v']['t'] == 'none') else expr(c))
         if parts[2] == '':
             return '%s:%s' % (parts[0], parts[1])
-        return ':'.join(parts)
+        # the grammar has eight slice forms only; with a step just '::c' (a[1:2:3] is a syntax error)
+        if parts[0] == '' and parts[1] == '':
+            return '::' + parts[2]
+        raise NotExpressible('slice with a step and a bound')
     return expr(n)
 
 
